@@ -119,10 +119,10 @@ def l_hdr(F, R):
     R.check(bool(kinds) and kinds[0] == "total_len", "S-refuse", "encode_packet/refuse-before-write",
             "encode_packet writes before checking the size", where=fid)
     # total_len rejects >= 2^28 (T-width rule of C15 checks the table itself); here: its else arm is Err
-    from tables import threshold_chain
-    _v, rows, els, _n = threshold_chain(F, "common::utils::total_len")
-    R.check(isinstance(els, tuple) and els[0] == "err" and rows and rows[-1][:2] == ("Lt", 268435456),
-            "S-refuse", "total_len/limit", "total_len does not return Err for remaining length >= 268435456", where="common::utils::total_len")
+    from r_pe import pw_table
+    tab, _c = pw_table(F, "common::utils::total_len", extra={268435454, 268435455, 268435456, 268435457})
+    R.check(tab.get(268435455, ("?",))[0] == "lin" and tab.get(268435456) == ("err", "InvalidVarByteInt") and tab.get(268435457) == ("err", "InvalidVarByteInt"),
+            "S-refuse", "total_len/limit", "total_len does not return Err(InvalidVarByteInt) exactly for remaining length >= 268435456", where="common::utils::total_len")
     R.sample({"rule": "L-hdr", "written": repr(it.written), "trace": [list(map(str, t)) for t in it.trace]})
 
 
